@@ -7,7 +7,7 @@
 (*  flooding:   behaviours of the multi-node flooding model (edges + walks),  *)
 (*              printed when the network is empty again                       *)
 EXTENDS Multicast, Json, IOUtils
-VARIABLE hist
+VARIABLES hist, pre     \* pre: the model state before the last step (edges mode: one history per (source state, step))
 
 P2 == {1, 2}
 P3 == {1, 2, 3}
@@ -26,12 +26,12 @@ AnyJoined == SUBSET FNode
 Depth == IF "VERIF_DEPTH" \in DOMAIN IOEnv THEN atoi(IOEnv.VERIF_DEPTH) ELSE 6
 
 \* ---- membership ---------------------------------------------------------------
-GMInit == MInit /\ FIdle /\ hist = <<>>
+GMInit == MInit /\ FIdle /\ hist = <<>> /\ pre = <<>>
 GMNext == /\ Len(hist) < Depth
           /\ MNext /\ UNCHANGED fvars
-          /\ hist' = Append(hist, mlast')
-GMSpec == GMInit /\ [][GMNext]_<<mvars, fvars, hist>>
-MEdgeView == <<nbr, grp, ann, mlast>>
+          /\ hist' = Append(hist, mlast') /\ pre' = <<nbr, grp, ann>>
+GMSpec == GMInit /\ [][GMNext]_<<mvars, fvars, hist, pre>>
+MEdgeView == <<pre, nbr, grp, ann, mlast>>
 MScn == [par |-> [kind |-> "member", peers |-> Peer, groups |-> Group, maxknown |-> MaxKnown], ops |-> hist]
 EmitMAll  == hist # <<>> => PrintT(<<"SCN", ToJson(MScn)>>)
 EmitMFull == Len(hist) = Depth => PrintT(<<"SCN", ToJson(MScn)>>)
@@ -54,11 +54,11 @@ GFNext == /\ Len(hist) < Depth
                                \/ \E p \in {1, 2, MaxKnown + 2} : Connect(p) \/ Disconnect(p) \/ Notify(p, TRUE, {1}) \/ Notify(p, FALSE, {1})
                                \/ \E p \in {1, 2, MaxKnown + 2}, b \in BOOLEAN : Add(1, p, b) \/ Remove(1, p, b)
           /\ UNCHANGED fvars
-          /\ hist' = Append(hist, mlast')
-GFSpec == GMInit /\ [][GFNext]_<<mvars, fvars, hist>>
+          /\ hist' = Append(hist, mlast') /\ pre' = <<>>
+GFSpec == GMInit /\ [][GFNext]_<<mvars, fvars, hist, pre>>
 
 \* ---- flooding -----------------------------------------------------------------
-GLInit == FInit /\ MIdle /\ hist = <<>>
+GLInit == FInit /\ MIdle /\ hist = <<>> /\ pre = <<>>
 FlatCopy(m) == [origin |-> m.id[1], serial |-> m.id[2], from |-> m.from, to |-> m.to]
 FOp == IF flast'.op = "originate" THEN [op |-> "originate", n |-> flast'.n]
        ELSE IF flast'.op = "deliver" THEN [op |-> "deliver", m |-> FlatCopy(flast'.m)]
@@ -66,11 +66,12 @@ FOp == IF flast'.op = "originate" THEN [op |-> "originate", n |-> flast'.n]
        ELSE flast'
 GLNext == /\ Len(hist) < Depth
           /\ FNext /\ UNCHANGED mvars
-          /\ hist' = Append(hist, FOp)
-GLSpec == GLInit /\ [][GLNext]_<<mvars, fvars, hist>>
-FEdgeView == <<olinks, members, win, fnet, norig, nwin, nfloss, flast>>
+          /\ hist' = Append(hist, FOp) /\ pre' = <<win, fnet>>
+GLSpec == GLInit /\ [][GLNext]_<<mvars, fvars, hist, pre>>
+FEdgeView == <<pre, olinks, members, win, fnet, norig, nwin, nfloss, flast>>
 FScn == [par |-> [kind |-> "flood", nodes |-> FNode, links |-> olinks, joined |-> members], ops |-> hist]
 FQuiet == fnet = <<>> /\ hist # <<>>
 EmitFQuiet == FQuiet => PrintT(<<"SCN", ToJson(FScn)>>)
+EmitFAll   == hist # <<>> => PrintT(<<"SCN", ToJson(FScn)>>)
 EmitFDone  == (FQuiet /\ TotalOrig = MaxMsgs) => PrintT(<<"SCN", ToJson(FScn)>>)
 =============================================================================
